@@ -49,8 +49,9 @@ type reqState struct {
 }
 
 type world struct {
-	mu   sync.Mutex
-	reqs map[[2]int]*reqState
+	mu      sync.Mutex
+	reqs    map[[2]int]*reqState
+	openNew bool // requests that appear from now on are not gated
 }
 
 func (w *world) get(conn, seq int) *reqState {
@@ -60,6 +61,10 @@ func (w *world) get(conn, seq int) *reqState {
 	r := w.reqs[k]
 	if r == nil {
 		r = &reqState{conn: conn, seq: seq, gate: make(chan struct{})}
+		if w.openNew {
+			r.gateOpened.Store(tick())
+			close(r.gate)
+		}
 		w.reqs[k] = r
 	}
 	return r
@@ -108,20 +113,22 @@ func (p *gateProto) GetCloseMsg() []byte             { return netlab.Frame([]byt
 func (p *gateProto) DoClose(ctx context.Context)     {}
 
 type scenario struct {
-	ID        int           `json:"id"`
-	Pool      int           `json:"pool"`
-	Conns     int           `json:"connections"`
-	PerConn   int           `json:"requests_per_connection"`
-	Script    string        `json:"gate_script"`
-	CtxMs     int           `json:"shutdown_context_ms"`
-	LateConns int           `json:"connections_sending_after_shutdown_call"`
-	Delay     time.Duration `json:"-"`
-	DelayMs   int           `json:"gate_delay_ms"`
-	ResetConn int           `json:"connections_reset_by_client_before_shutdown"`
-	OneWay    bool          `json:"every_other_request_one_way"`
-	TLS       bool          `json:"tls"`
-	IdleMs    int           `json:"connections_idle_ms_before_shutdown"` // with requests_per_connection = 0: clients that only sit there
-	RawPeer   bool          `json:"tcp_peer_that_never_starts_the_tls_handshake"`
+	ID               int           `json:"id"`
+	Pool             int           `json:"pool"`
+	Conns            int           `json:"connections"`
+	PerConn          int           `json:"requests_per_connection"`
+	Script           string        `json:"gate_script"`
+	CtxMs            int           `json:"shutdown_context_ms"`
+	LateConns        int           `json:"connections_sending_after_shutdown_call"`
+	Delay            time.Duration `json:"-"`
+	DelayMs          int           `json:"gate_delay_ms"`
+	ResetConn        int           `json:"connections_reset_by_client_before_shutdown"`
+	OneWay           bool          `json:"every_other_request_one_way"`
+	TLS              bool          `json:"tls"`
+	IdleMs           int           `json:"connections_idle_ms_before_shutdown"` // with requests_per_connection = 0: clients that only sit there
+	RawPeer          bool          `json:"tcp_peer_that_never_starts_the_tls_handshake"`
+	SecondShutdownMs int           `json:"second_shutdown_call_after_ms"` // a second, overlapping Shutdown call (admin command, then a signal)
+	Unbuffered       bool          `json:"pool_queue_capacity_0"`         // receive loops hand their requests over to the workers directly
 }
 
 type connResult struct {
@@ -138,6 +145,9 @@ func runScenario(sc scenario) {
 	conf := netlab.DefaultServerConf("tcp")
 	conf.MaxInvoke = int32(sc.Pool)
 	conf.QueueCap = 100000
+	if sc.Unbuffered {
+		conf.QueueCap = 0
+	}
 	if sc.TLS {
 		tc, err := netlab.SelfSignedTLS()
 		if err != nil {
@@ -227,6 +237,28 @@ func runScenario(sc scenario) {
 		w.mu.Unlock()
 		return n >= total
 	}, 10*time.Second)
+	if sc.Unbuffered {
+		// a receive loop that is waiting to hand a request over does not read on: wait until no
+		// further request gets framed; only the ones framed before the Shutdown call are judged
+		last, stable := -1, 0
+		for stable < 60 {
+			n := 0
+			w.mu.Lock()
+			for _, r := range w.reqs {
+				if r.framed.Load() != 0 {
+					n++
+				}
+			}
+			w.mu.Unlock()
+			if n == last {
+				stable++
+			} else {
+				last, stable = n, 0
+			}
+			time.Sleep(5 * time.Millisecond)
+		}
+		framedAll = true
+	}
 	if !framedAll {
 		run.Inconclusive(fmt.Sprintf("not all requests were framed before shutdown (scenario %+v)", sc))
 	}
@@ -254,6 +286,18 @@ func runScenario(sc scenario) {
 		_ = ts.Shutdown(ctx)
 		done <- tick()
 	}()
+	var second chan [2]int64 // return stamp, duration in ms
+	if sc.SecondShutdownMs > 0 {
+		second = make(chan [2]int64, 1)
+		go func() {
+			time.Sleep(time.Duration(sc.SecondShutdownMs) * time.Millisecond)
+			ctx2, cancel2 := context.WithTimeout(context.Background(), time.Duration(sc.CtxMs)*time.Millisecond)
+			defer cancel2()
+			t := time.Now()
+			_ = ts.Shutdown(ctx2)
+			second <- [2]int64{tick(), time.Since(t).Milliseconds()}
+		}()
+	}
 	// gate script
 	var all []*reqState
 	w.mu.Lock()
@@ -299,6 +343,18 @@ func runScenario(sc scenario) {
 			}
 			open(r)
 		}
+	}
+	if sc.Unbuffered {
+		// requests the receive loops only read once their predecessor was handed over are not in
+		// `all`: they run ungated (they are not judged, but they must not hold up the drain)
+		w.mu.Lock()
+		w.openNew = true
+		for _, r := range w.reqs {
+			if !neverOpen[r] {
+				open(r)
+			}
+		}
+		w.mu.Unlock()
 	}
 	// gates of requests that only start later (queued ones) are opened as they come: they are in `all` already
 	var retStamp int64
@@ -382,6 +438,38 @@ func runScenario(sc scenario) {
 		run.Violation("request-answered-twice", locus, fmt.Sprintf("%d requests answered more than once", dup), wit(nil))
 		return
 	}
+	// oracle 1b: a Shutdown call that came back before its context expired came back because
+	// everything had drained: no request it had to wait for finishes after its return
+	returns := [][3]int64{{retStamp, took.Milliseconds(), 1}}
+	if second != nil {
+		select {
+		case s2 := <-second:
+			returns = append(returns, [3]int64{s2[0], s2[1], 2})
+		case <-time.After(time.Duration(sc.CtxMs)*time.Millisecond + 10*time.Second):
+			run.Violation("shutdown-does-not-return", locus+":second-overlapping-call", fmt.Sprintf("a second Shutdown call did not return within its context (%d ms) + 10 s; scenario %+v", sc.CtxMs, sc), wit(nil))
+			return
+		}
+	}
+	for _, rt := range returns {
+		if rt[1] >= int64(sc.CtxMs) {
+			continue
+		}
+		for _, r := range all {
+			if f := r.framed.Load(); f == 0 || f > shutdownCall || neverOpen[r] || isReset[r.conn] {
+				continue
+			}
+			if fin := r.finished.Load(); fin == 0 || fin > rt[0] {
+				which := map[int64]string{1: "Shutdown", 2: "a second, overlapping Shutdown call"}[rt[2]]
+				loc := locus
+				if rt[2] == 2 {
+					loc += ":second-overlapping-call"
+				}
+				run.Violation("shutdown-returned-before-drained", loc, fmt.Sprintf("%s returned after %d ms (context %d ms) while request %d on connection %d, read before the shutdown began, was still executing; scenario %+v", which, rt[1], sc.CtxMs, r.seq, r.conn, sc),
+					wit(map[string]interface{}{"return_stamp": rt[0], "request_finished_stamp": r.finished.Load()}))
+				return
+			}
+		}
+	}
 	// oracle 2: close notice on every connection
 	if len(neverOpen) == 0 {
 		for c, res := range results {
@@ -460,6 +548,16 @@ func main() {
 			}
 			id++
 			scs = append(scs, scenario{ID: id, Pool: pool, Conns: 3, PerConn: 1, Script: "all-at-once", CtxMs: 4000, Delay: 200 * time.Millisecond, DelayMs: 200, TLS: true, RawPeer: true})
+			// a second Shutdown call while the first is draining (an admin command followed by a signal)
+			id++
+			scs = append(scs, scenario{ID: id, Pool: pool, Conns: 3, PerConn: 2, Script: "all-at-once", CtxMs: 6000, Delay: 1200 * time.Millisecond, DelayMs: 1200, SecondShutdownMs: 250})
+			if pool > 0 {
+				// no queue between the receive loops and the workers: more requests read than workers
+				id++
+				scs = append(scs, scenario{ID: id, Pool: pool, Conns: 4 + 2*pool, PerConn: 2, Script: "all-at-once", CtxMs: 6000, Delay: 300 * time.Millisecond, DelayMs: 300, Unbuffered: true})
+				id++
+				scs = append(scs, scenario{ID: id, Pool: pool, Conns: 4 + 2*pool, PerConn: 2, Script: "one-by-one", CtxMs: 6000, Unbuffered: true})
+			}
 			// clients that die by reset while their requests execute; healthy ones must still get the notice
 			id++
 			scs = append(scs, scenario{ID: id, Pool: pool, Conns: 12, PerConn: 1, Script: "after-notice", CtxMs: 6000, Delay: 300 * time.Millisecond, DelayMs: 300, ResetConn: 6})
